@@ -57,6 +57,12 @@ theorem e8m0ReencChk : allBelow 256 (fun c => decide ((decode .e8m0mxfp c >>= en
 theorem mxintReencChk : allBelow 256 (fun c => decide ((decode .mxint c >>= encode .mxint .saturate) = .ok c)) = true := by
   decide +kernel
 
+/-- mxint: on every representable value the encoder returns the specification's nearest-even code, which is the code itself. -/
+theorem mxintRneChk : allBelow 256 (fun c => decide (
+    mxintEnc (mxintDec c) = .ok (match mxintDecSpec c with | .fin s m e => mxintCodeSpec s m e | _ => 0) ∧
+    (match mxintDecSpec c with | .fin s m e => mxintCodeSpec s m e | _ => 0) = c)) = true := by
+  decide +kernel
+
 /-- The code grids are strictly increasing up to and including the first unavailable code. -/
 theorem strictMono_all (t : Tbl) : StrictMonoTo t.fmt := by
   cases t <;> decide +kernel
